@@ -680,6 +680,10 @@ def run(ch: Choices, opts: Dict[str, Any]) -> Dict[str, Any]:
     def app_task(app):
         aid = app["id"]
         carried: List[Any] = []
+        # the remote side creates in the order in which this node receives whenever that order can matter: requests of
+        # different types share a key, or a request can still be outstanding when the next subroutine issues its own
+        ordered_ghosts = bool(app.get("mixed_types")) or any(
+            sb.get("fault_after") or any(getattr(r, "defer_wait", False) for r in sb["reqs"]) for sb in app["subs"])
         for k, sub in enumerate(app["subs"]):
             prog = build_program(sub, carried)
             carried = [r for r in sub["reqs"] if getattr(r, "defer_wait", False)]
@@ -688,7 +692,7 @@ def run(ch: Choices, opts: Dict[str, Any]) -> Dict[str, Any]:
             g = node.handle_raw(subroutine_bytes(prog, aid, node.flavour))
             for r in sub["reqs"]:
                 if r.role == "recv":
-                    sched.spawn(f"ghost{aid}.{k}.{r.j}", ghost_task(r, app.get("mixed_types", False)), party="link")
+                    sched.spawn(f"ghost{aid}.{k}.{r.j}", ghost_task(r, ordered_ghosts), party="link")
             while True:
                 try:
                     y = next(g)
